@@ -565,13 +565,27 @@ type liveOp struct {
 	// either fails (expensive schedule in force) or succeeds consuming exactly the cheap charge; an execution admitted
 	// under one schedule and charged by the other shows up as GasRemaining above GasProvided
 	Tight bool `json:"tight,omitempty"`
+	// Starved: GasProvided = 1 in the baselines and in the concurrent run alike - the rejected-call paths (which must
+	// leave nothing behind in the function object, e.g. no lock) run under concurrency too
+	Starved bool `json:"starved,omitempty"`
+	// Over: the amount is far above what the account holds - the call is rejected by the balance check, deep inside
+	// the function, in all runs alike
+	Over bool `json:"over,omitempty"`
 }
 
 type liveCase struct {
 	Threads [][]liveOp `json:"threads"`
 	Flips   int        `json:"flips"`
 	Epochs  []uint32   `json:"epochs"`
+	// StopEarly: the reconfiguring goroutine stops after exactly Flips changes, possibly while executions are still
+	// running; afterwards (all quiet) every priced function is probed once and must be charged by the LAST schedule
+	// delivered - a change that has returned is in force
+	StopEarly bool `json:"stop_early,omitempty"`
 }
+
+// liveProbes: one execution of every priced shape, run by every goroutine's owner after the concurrent phase
+var liveProbes = []string{"transfer", "mint", "localburn", "burn", "skv", "create", "adduri", "update", "addq", "nftburn", "nfttransfer", "nft-xshard",
+	"multi", "multi-xshard", "transfer-call", "setusername", "changeowner", "claim"}
 
 // counters for the evidence: concurrent executions with GasProvided between the two schedules' charges, and how many of
 // them were admitted (ran under the cheap schedule)
@@ -582,6 +596,10 @@ var liveTightOps, liveTightAdmitted int64
 // because a tight operation may legitimately fail in the concurrent run while it succeeds in the baselines
 var liveTightSafe = map[string]bool{"skv": true, "create": true, "adduri": true, "update": true, "mint": true, "localburn": true, "burn": true,
 	"addq": true, "nftburn": true, "transfer": true, "setusername": true, "changeowner": true, "claim": true, "transfer-call": true}
+
+// kinds that take from a holding (an amount above it is rejected by the balance check)
+var liveOverKinds = map[string]bool{"burn": true, "localburn": true, "transfer": true, "transfer-call": true, "transfer-xshard": true, "nftburn": true,
+	"nfttransfer": true, "nft-xshard": true, "nft-call": true, "nft-xshard-call": true, "multi": true, "multi-xshard": true, "multi-call": true, "multi-xshard-call": true}
 
 type liveObs struct {
 	fn                  string
@@ -679,10 +697,23 @@ func c19LiveRun(lc *liveCase, mode string, baseA, baseB [][]liveObs) ([][]liveOb
 	start := make(chan struct{})
 	var wg sync.WaitGroup
 	var stop int32
-	runThread := func(t int) {
+	// every goroutine's list is followed by the probes (run in the baselines too, so that their charges are known)
+	opsOf := make([][]liveOp, nthreads)
+	for t := range opsOf {
+		opsOf[t] = append(append([]liveOp{}, lc.Threads[t]...), make([]liveOp, len(liveProbes))...)
+		for k, kind := range liveProbes {
+			opsOf[t][len(lc.Threads[t])+k] = liveOp{Kind: kind, Size: 1}
+		}
+	}
+	runThread := func(t, from, to int) {
 		p := ps[t]
-		one, two := []byte{1}, []byte{2}
-		for j, op := range lc.Threads[t] {
+		two := []byte{2}
+		for j := from; j < to; j++ {
+			op := opsOf[t][j]
+			one := []byte{1}
+			if op.Over && liveOverKinds[op.Kind] {
+				one = new(big.Int).Lsh(big.NewInt(1), 200).Bytes() // above every holding, whatever was minted or added
+			}
 			blob := make([]byte, op.Size)
 			for x := range blob {
 				blob[x] = byte('a' + x%26)
@@ -752,7 +783,9 @@ func c19LiveRun(lc *liveCase, mode string, baseA, baseB [][]liveObs) ([][]liveOb
 			}
 			c.Gas = ampleGas
 			o := liveObs{fn: c.Fn}
-			if concurrent && op.Tight && liveTightSafe[op.Kind] {
+			if op.Starved {
+				c.Gas = 1
+			} else if concurrent && op.Tight && liveTightSafe[op.Kind] {
 				a, b := baseA[t][j], baseB[t][j]
 				if a.ok && b.ok && a.consumed > 0 && b.consumed > a.consumed {
 					c.Gas = b.consumed - 1
@@ -787,7 +820,7 @@ func c19LiveRun(lc *liveCase, mode string, baseA, baseB [][]liveObs) ([][]liveOb
 	}
 	if !concurrent {
 		for t := 0; t < nthreads; t++ {
-			runThread(t)
+			runThread(t, 0, len(opsOf[t]))
 		}
 		for t, rs := range results {
 			for j, o := range rs {
@@ -798,7 +831,7 @@ func c19LiveRun(lc *liveCase, mode string, baseA, baseB [][]liveObs) ([][]liveOb
 		}
 		return results, "", "", 0
 	}
-	var execDone int32
+	var execDone, lastIsB int32
 	var execWG sync.WaitGroup
 	for t := 0; t < nthreads; t++ {
 		wg.Add(1)
@@ -807,7 +840,7 @@ func c19LiveRun(lc *liveCase, mode string, baseA, baseB [][]liveObs) ([][]liveOb
 			defer wg.Done()
 			defer execWG.Done()
 			<-start
-			runThread(t)
+			runThread(t, 0, len(lc.Threads[t]))
 		}(t)
 	}
 	go func() { execWG.Wait(); atomic.StoreInt32(&execDone, 1) }()
@@ -816,12 +849,15 @@ func c19LiveRun(lc *liveCase, mode string, baseA, baseB [][]liveObs) ([][]liveOb
 	go func() {
 		defer wg.Done()
 		<-start
-		// keeps flipping for as long as executions are running (at least lc.Flips times), ending on schedule A
-		for i := 0; i < lc.Flips || atomic.LoadInt32(&execDone) == 0; i++ {
+		// keeps flipping for as long as executions are running (at least lc.Flips times) - or, StopEarly, exactly
+		// lc.Flips times; which schedule was delivered last is remembered
+		for i := 0; i < lc.Flips || (!lc.StopEarly && atomic.LoadInt32(&execDone) == 0); i++ {
 			if i%2 == 0 {
 				sh.Factory.GasScheduleChange(copyGas(gasB))
+				atomic.StoreInt32(&lastIsB, 1)
 			} else {
 				sh.Factory.GasScheduleChange(copyGas(gasA))
+				atomic.StoreInt32(&lastIsB, 0)
 			}
 			if i%4 == 3 {
 				runtime.Gosched()
@@ -858,11 +894,27 @@ func c19LiveRun(lc *liveCase, mode string, baseA, baseB [][]liveObs) ([][]liveOb
 	wg.Wait()
 	atomic.StoreInt32(&stop, 1)
 	readers.Wait()
+	// all quiet: the probes, one goroutine's after the other's
+	sh.concurrent = false
+	for t := 0; t < nthreads; t++ {
+		runThread(t, len(lc.Threads[t]), len(opsOf[t]))
+	}
 	n := 0
 	for t, rs := range results {
 		for j, o := range rs {
 			n++
 			a, b := baseA[t][j], baseB[t][j]
+			if j >= len(lc.Threads[t]) {
+				// a probe: charged by the schedule delivered last
+				want, name := a, "A"
+				if atomic.LoadInt32(&lastIsB) == 1 {
+					want, name = b, "B"
+				}
+				if o.pan != nil || (want.ok && (!o.ok || o.consumed != want.consumed)) {
+					return nil, "live/" + o.fn + "/schedule-change-not-in-force-after-quiescence", fmt.Sprintf("after all executions and %d schedule changes had returned (the last one delivered schedule %s), goroutine %d's probe of %s: success=%v consumed %d (error %v, panic %v); run alone under schedule %s it consumes %d", lc.Flips, name, t, o.fn, o.ok, o.consumed, o.err, o.pan, name, want.consumed), n
+				}
+				continue
+			}
 			if o.tight {
 				atomic.AddInt64(&liveTightOps, 1)
 				if o.ok {
@@ -894,10 +946,11 @@ func genLive(rt *rapid.T) *liveCase {
 		ops := make([]liveOp, k)
 		for j := range ops {
 			ops[j] = liveOp{Kind: rapid.SampledFrom([]string{"skv", "create", "adduri", "update", "mint", "transfer", "skv", "create", "adduri", "update", "skv", "create", "adduri", "update", "localburn", "burn", "addq", "nftburn", "nfttransfer", "multi", "freeze", "unfreeze", "pause", "unpause", "setrole", "unsetrole", "adduri", "update", "setusername", "changeowner", "claim", "wipe", "setusername", "mint", "localburn", "burn", "addq", "nftburn", "transfer",
-				"nft-xshard", "nft-xshard", "nft-call", "nft-xshard-call", "multi-xshard", "multi-xshard", "multi-call", "multi-xshard-call", "transfer-call", "transfer-call", "transfer-xshard", "nfttransfer", "multi"}).Draw(rt, "live-kind"), Size: rapid.SampledFrom([]int{0, 1, 17, 200}).Draw(rt, "live-size"), Tight: rapid.IntRange(0, 2).Draw(rt, "live-tight") == 0}
+				"nft-xshard", "nft-xshard", "nft-call", "nft-xshard-call", "multi-xshard", "multi-xshard", "multi-call", "multi-xshard-call", "transfer-call", "transfer-call", "transfer-xshard", "nfttransfer", "multi"}).Draw(rt, "live-kind"), Size: rapid.SampledFrom([]int{0, 1, 17, 200}).Draw(rt, "live-size"), Tight: rapid.IntRange(0, 2).Draw(rt, "live-tight") == 0, Starved: rapid.IntRange(0, 7).Draw(rt, "live-starved") == 0, Over: rapid.IntRange(0, 7).Draw(rt, "live-over") == 0}
 		}
 		lc.Threads = append(lc.Threads, ops)
 	}
+	lc.StopEarly = rapid.Bool().Draw(rt, "live-stop-early")
 	ne := rapid.IntRange(0, 10).Draw(rt, "live-nepochs")
 	for i := 0; i < ne; i++ {
 		lc.Epochs = append(lc.Epochs, rapid.SampledFrom([]uint32{0, 1, 2, 0, 5}).Draw(rt, "live-epoch"))
